@@ -67,10 +67,15 @@ class Ctx:
 
 
 class lean_lock:
+    """exclusive while Gen/ is rewritten and modules rebuilt; shared while a driver reads the .olean files"""
+
+    def __init__(self, shared: bool = False):
+        self.shared = shared
+
     def __enter__(self):
         os.makedirs(LEAN_DIR, exist_ok=True)
-        self.f = open(os.path.join(LEAN_DIR, ".lock"), "w")
-        fcntl.flock(self.f, fcntl.LOCK_EX)
+        self.f = open(os.path.join(LEAN_DIR, ".lock"), "a")
+        fcntl.flock(self.f, fcntl.LOCK_SH if self.shared else fcntl.LOCK_EX)
         return self
 
     def __exit__(self, *a):
@@ -205,16 +210,22 @@ def run_driver(name: str, cases: t.List[t.Dict[str, t.Any]], timeout: int = 1200
     if not cases:
         return []
     inp = "\n".join(json.dumps(c, separators=(",", ":")) for c in cases) + "\n"
-    p = subprocess.run(
-        ["lake", "env", "lean", "--run", f"Driver/{name}.lean"],
-        cwd=LEAN_DIR,
-        input=inp,
-        capture_output=True,
-        text=True,
-        timeout=timeout,
-    )
+    for attempt in range(3):
+        # no lock here: readers would starve the builders; a driver that loads modules while they are being
+        # replaced fails and is simply retried
+        p = subprocess.run(
+            ["lake", "env", "lean", "--run", f"Driver/{name}.lean"],
+            cwd=LEAN_DIR,
+            input=inp,
+            capture_output=True,
+            text=True,
+            timeout=timeout,
+        )
+        if p.returncode == 0:
+            break
+        time.sleep(2)  # a concurrent build may have been replacing the compiled modules
     if p.returncode != 0:
-        raise RuntimeError(f"driver {name} failed: {p.stderr[-2000:]}")
+        raise RuntimeError(f"driver {name} failed (exit {p.returncode}): {(p.stderr or p.stdout)[-2000:]}")
     outs = [json.loads(l) for l in p.stdout.split("\n") if l.strip()]
     if len(outs) != len(cases):
         raise RuntimeError(f"driver {name}: {len(cases)} cases in, {len(outs)} lines out; stderr={p.stderr[-500:]}")
